@@ -147,15 +147,40 @@ theorem step_inv {c : Cloud} (h : Inv c) (op : Op) : Inv (step c op).1 := by
     split <;> (rename_i heq; rw [heq] at this; exact this)
   | commit => exact commit_inv h
 
+/-- entries in key order, each above the committed record of its key, are accepted one after the other -/
+theorem seqRun_of_adv (lg : Tab) (t : Tab) (hs : Sorted lg)
+    (ha : ∀ e ∈ lg, ∀ r0, lookup t e.1 = some r0 → r0.1 < e.2.1) : ∃ T, Mem.seqRun t lg = some T := by
+  induction lg generalizing t with
+  | nil => exact ⟨t, rfl⟩
+  | cons e lg ih =>
+    obtain ⟨h1, h2⟩ := hs
+    have hp : Mem.putV? t e = some (insert t e.1 e.2) := by
+      rw [Mem.putV?_eq]
+      cases hl : lookup t e.1 with
+      | none => rfl
+      | some r0 =>
+        obtain ⟨v0, x0⟩ := r0
+        have := ha e (by simp) _ hl
+        simp only at this
+        have n1 : ¬ e.2.1 < v0 := by omega
+        have n2 : ¬ e.2.1 = v0 := by omega
+        simp [n1, n2]
+    simp only [Mem.seqRun, hp]
+    apply ih _ h2
+    intro e' he' r0 hr0
+    have hne : e.1 ≠ e'.1 := by have := h1 e' he'; komega
+    rw [lookup_insert_ne _ _ hne] at hr0
+    exact ha e' (by simp [he']) r0 hr0
+
 /-- under the invariant the local store accepts the whole log -/
-theorem log_ok {c : Cloud} (h : Inv c) {lg : Tab} (hl : c.log = some lg) :
-    lg.all (entryOk c.loc) = true := by
+theorem log_accepted {c : Cloud} (h : Inv c) {lg : Tab} (hl : c.log = some lg) :
+    Mem.batch c.loc lg = (insertAll c.loc lg, .ok) := by
   obtain ⟨hs, ha⟩ := h.adv lg hl
-  rw [List.all_eq_true]
-  intro e he
-  rw [entryOk_iff]
-  intro r0 h0
-  exact Or.inl (ha e.1 e.2 (lookup_of_mem_sorted hs he) r0 h0)
+  obtain ⟨T, hT⟩ := seqRun_of_adv lg c.loc hs
+    (fun e he r0 h0 => ha e.1 e.2 (lookup_of_mem_sorted hs he) r0 h0)
+  rcases Mem.batch_spec c.loc lg with ⟨h1, _⟩ | ⟨_, _, h2, _⟩
+  · rw [hT] at h1; cases h1
+  · exact h2
 
 end Cloud
 end VlsModel.KVV
